@@ -110,6 +110,7 @@ pub fn check_msg(m: &SMsg, family: &'static str, cx: &mut Cx) -> Res {
 
 fn run_tape(part: &str, tape: &[u8], cx: &mut Cx) -> Res {
     let mut t = Tape::new(tape);
+    crate::props::history::prior_ops(&mut t, cx, true);
     match part {
         "avps" => check_avp(&gen_avp(&mut t), cx),
         "control" => {
